@@ -24,6 +24,14 @@ func init() {
 		skelTarget{Name: "C09.ConvertKubeEventToBindingContext", File: "pkg/hook/controller/kubernetes_bindings_controller.go", Recv: "", Func: "ConvertKubeEventToBindingContext",
 			Fields: []string{"JqFilter", "BindingType", "IncludeSnapshots", "Group", "Objects", "WatchEvents", "Type", "BindingName", "IncludeSnapshotsFrom"},
 			Calls:  []string{}},
+		// the conversion links (model: enableConversion / handleConversion): a link is built from the binding and
+		// the rule inside the rules loop and stored under the rule; HandleEvent reads the link found for the rule
+		skelTarget{Name: "C09.EnableConversionBindings", File: "pkg/hook/controller/conversion_bindings_controller.go", Recv: "ConversionBindingsController", Func: "EnableConversionBindings",
+			Fields: []string{"Bindings", "Links", "Rules", "CrdName", "BindingName", "IncludeSnapshotsFrom", "IncludeSnapshots", "Group", "FromVersion", "ToVersion"},
+			Calls:  []string{}},
+		skelTarget{Name: "C09.ConversionHandleEvent", File: "pkg/hook/controller/conversion_bindings_controller.go", Recv: "ConversionBindingsController", Func: "HandleEvent",
+			Fields: []string{"Links", "BindingName", "IncludeSnapshots", "Group", "FromVersion", "ToVersion", "BindingType"},
+			Calls:  []string{}},
 	)
 }
 
